@@ -337,7 +337,7 @@ fn case_tx(r: &mut Rng, targets: &[&'static str]) -> String {
     if pad {
         data.push(0);
     }
-    let im = img::Img { rows, cols, spp, bits, frames, frames_attr, data, ob: r.chance(1, 2) };
+    let im = img::Img { rows, cols, spp, bits, frames, frames_attr, data, ob: r.chance(1, 2), planar: 0, mono1: false };
     let src = *r.pick(&["1.2.840.10008.1.2", "1.2.840.10008.1.2.1", "1.2.840.10008.1.2.2"]);
     let head = format!(
         "tx {} {} {} {} {} {} {} {} {}",
